@@ -7,6 +7,11 @@
    of before/after hooks stacked on the responder; the error-handler registry (the three
    default registrations followed by add_error_handler calls in order).
 
+   Components: shape[c] is the set of method slots component c implements for the interface at hand.
+   A slot may be given under its plain name, under the *_async name, or both, independently per slot:
+   on ASGI a slot runs its *_async method if there is one, else the plain coroutine; on WSGI the plain
+   method runs and *_async is ignored.
+
    Hooks: nb before hooks and na after hooks are stacked on the responder by decorators at method
    level and/or class level, in any mixture.  Documented stacking: before hooks run outermost
    decorator first, after hooks innermost first; class-level decorators wrap every responder of the
